@@ -50,6 +50,10 @@ def oracle(line: str, obs: Obs):
                 elif d["disc"] == "1" and pstate[n]["last_disc"] is None:
                     pstate[n]["last_disc"] = now
                 pstate[n].update(conn=d["conn"], reason=d["reason"], disc=d["disc"])
+        for k in newc:
+            # a dial attempt that ended within the same step (refused at once) is a loss at this instant
+            if conns[k]["dir"] == "S" and conns[k]["live"] == "0" and conns[k]["name"] in pstate:
+                pstate[conns[k]["name"]]["last_disc"] = now
         for k, d in conns.items():
             cstate[k] = d["state"]
         # DPR handling
